@@ -154,7 +154,7 @@ theorem drainLoop_spec (items : List (Item α)) (t : Nat) (ht : (items.map (·.u
     · have h0 : x.userCount = 0 := by omega
       simp only [hx, if_false]
       rw [ih t (by omega)]
-      simp [List.sum_cons, h0, hx]
+      simp [List.sum_cons, h0]
 
 /-- neither the `-=` on the total (handlers_dispatcher.rs:123) nor the final
 `debug_assert_eq!(self.user_count, 0)` (:128) of `do_for_each_active_and_remove_tail` can fire -/
